@@ -122,8 +122,57 @@ def project(ldr) -> dict:
     if isinstance(ldr, SubtomogramLoader):
         img = _which_image(ldr.image, bin_)
         return dict(kind="single", tab=project_mol(ldr.molecules, bin_), imgs=[img], img=img, bin=bin_)
-    imgs = sorted(int(k) for k in ldr.images.keys())
-    return dict(kind="batch", tab=project_mol(ldr.molecules, bin_), imgs=imgs, img=-1, bin=bin_)
+    tab = project_mol(ldr.molecules, bin_)
+    if bin_ != 1:
+        imgs = sorted(int(k) for k in ldr.images.keys())
+        return dict(kind="batch", tab=tab, imgs=imgs, img=-1, bin=bin_)
+    # abstraction function: an image id is local to a batch; the abstract state names a tomogram by its content (code)
+    m = idmap(ldr)
+    for r in tab["rows"]:
+        if "img" in r["f"]:
+            r["f"]["img"] = m.get(r["f"]["img"], -1)
+    return dict(kind="batch", tab=tab, imgs=sorted(m.values()), img=-1, bin=bin_)
+
+
+def idmap(ldr) -> dict:
+    """image id of a batch loader -> code of the tomogram registered under it"""
+    return {int(k): _which_image(img, 1) for k, img in ldr.images.items()}
+
+
+def id_of_code(ldr, code: int) -> int:
+    if int(round(ldr.scale)) != 1 or not hasattr(ldr, "images"):
+        return code
+    for k, c in idmap(ldr).items():
+        if c == code:
+            return k
+    return code
+
+
+def fresh2(ldr):
+    """Two tomogram codes not yet in the loader (Loader.tla: Fresh2): programmes generated along the model's own path may name
+    codes that a nondeterministic step (sample) of the real session has since made stale."""
+    from acryo import SubtomogramLoader
+
+    used = {_which_image(ldr.image, 1)} if isinstance(ldr, SubtomogramLoader) else set(idmap(ldr).values())
+    out, n = [], len(used)
+    while len(out) < 2:
+        if n not in used:
+            out.append(n)
+        n += 1
+    return out
+
+
+def build_x(form: str, codes, T):
+    """The other loader of add_loader / from_loaders, made of the spare molecules T (LdrOps: XTabs)."""
+    from acryo import BatchLoader, SubtomogramLoader
+
+    if form == "single":
+        return SubtomogramLoader(tomo(codes[0]), T.copy(), order=1, scale=1.0, output_shape=BOX)
+    x = BatchLoader(order=1, scale=1.0, output_shape=BOX)
+    own = (7, 3, 9, 5)          # X's own ids: neither the codes nor in registration order
+    for i in range(T.count()):
+        x.add_tomogram(tomo(codes[i]), T.subset([i]), image_id=own[i])
+    return x
 
 
 def _which_image(image, bin_: int) -> int:
@@ -251,7 +300,7 @@ def _how_call(ldr, how: dict, seed: int):
         if p["col"] == "img":
             import polars as pl
 
-            return ldr.filter(pl.col("image-id") == p["c"])
+            return ldr.filter(pl.col("image-id") == id_of_code(ldr, p["c"]))
         return ldr.filter(tables._pred(p))
     if name == "sample":
         return ldr.sample(how["n"], seed=seed)
@@ -295,6 +344,17 @@ def execute(op: dict, ldr, T, seed: int = 0):
             while newid in ids_before:
                 newid += 1
             res = ldr.add_tomogram(tomo(newid), T)
+        elif name in ("add_loader", "from_loaders"):
+            from acryo import BatchLoader
+
+            X = build_x(op["form"], op["codes"], T)
+            x_before = project_mol(X.molecules)
+            if name == "add_loader":
+                res = ldr.add_loader(X)
+            else:
+                res = BatchLoader.from_loaders([ldr, X], order=1, scale=1.0, output_shape=BOX)
+            obs = observe(res, "asnumpy")[0] if res.count() > 0 else []
+            extra["operand_changed"] = project_mol(X.molecules) != x_before
         elif name == "fork":
             how = op["how"]
             res = (ldr.copy() if how == "copy" else ldr.replace(order=ldr.order) if how == "replace_order"
@@ -331,9 +391,10 @@ def execute(op: dict, ldr, T, seed: int = 0):
                     return float(np.asarray(x)[1, 1, 1]) + 5.0e6
 
                 applied = grp.apply([centre, centre_far])
+            ids = idmap(ldr) if op["col"] == "img" and int(round(ldr.scale)) == 1 else {}
             for store in (groups, groups2):
                 for key, sub in grp:
-                    k = int(key) if op["col"] == "img" else tables._val_to_spec(op["col"], key)
+                    k = ids.get(int(key), int(key)) if op["col"] == "img" else tables._val_to_spec(op["col"], key)
                     if applied is not None:
                         fr = applied[key]
                         o = [decode(v) for v in fr["centre"].to_list()]
